@@ -183,3 +183,73 @@ pub fn c19a_relex_ascii_then_3byte() { relex_guard("a\u{65e5}", 2) }
 #[kani::proof]
 #[kani::unwind(8)]
 pub fn c19a_relex_two_wide() { relex_guard("\u{e9}\u{1F600}", 2) }
+
+// ---- C18c: the indented syntax's indentation reader (blank lines, tabs vs spaces) ----
+
+use crate::util::{fixed_random_state, fmt_stub};
+use grass_compiler::verif::{sass_op, BaseOut, SassOp};
+
+/// N tokens drawn from the alphabet that matters to indentation: space, tab, newline, a letter
+fn indentation<const N: usize>() {
+    let mut chars = [' '; N];
+    let mut i = 0;
+    while i < N {
+        let k: u8 = kani::any();
+        kani::assume(k < 4);
+        chars[i] = [' ', '\t', '\n', 'a'][k as usize];
+        i += 1;
+    }
+    let lx = VLexer::from_chars(&chars, span(N as u32), false);
+    let options = grass_compiler::Options::default();
+    let (out, lx) = sass_op(lx, &options, SassOp::PeekIndentation);
+    assert!(lx.cursor() == 0, "C18c: peeking the indentation moved the cursor");
+    // reference: indentation (count of leading blanks) of the first line after the newline that is not blank;
+    // 0 at end of input; whitespace-only lines do not count
+    let mut want: Option<usize> = None;          // None = error expected
+    let mut mixed = false;
+    if N == 0 {
+        want = Some(0);
+    } else if chars[0] == '\n' {
+        let mut p = 1;
+        loop {
+            let mut n = 0;
+            let (mut tab, mut sp) = (false, false);
+            while p < N && (chars[p] == ' ' || chars[p] == '\t') {
+                if chars[p] == ' ' { sp = true } else { tab = true }
+                n += 1;
+                p += 1;
+            }
+            if p >= N { want = Some(0); break; }
+            if chars[p] == '\n' { p += 1; continue; }
+            mixed = tab && sp;
+            if !mixed { want = Some(n); }
+            break;
+        }
+    }
+    match out {
+        BaseOut::Count(n) => {
+            assert!(want == Some(n), "C18c: indentation of the next line is wrong (whitespace-only lines must not count)");
+            kani::cover!(n >= 2, "indented");
+        }
+        BaseOut::Err(_) => {
+            assert!(want.is_none(), "C18c: a consistent indentation was rejected");
+            kani::cover!(mixed, "mixed_tabs_spaces");
+        }
+        _ => assert!(false),
+    }
+    kani::cover!(true, "end");
+    core::mem::forget(lx);
+    core::mem::forget(options);
+}
+
+#[kani::proof]
+#[kani::unwind(8)]
+#[kani::stub(std::hash::RandomState::new, fixed_random_state)]
+#[kani::stub(alloc::fmt::format, fmt_stub)]
+pub fn c18c_peek_indentation_5() { indentation::<5>() }
+
+#[kani::proof]
+#[kani::unwind(10)]
+#[kani::stub(std::hash::RandomState::new, fixed_random_state)]
+#[kani::stub(alloc::fmt::format, fmt_stub)]
+pub fn c18c_peek_indentation_7() { indentation::<7>() }
